@@ -8,6 +8,7 @@ mod dump;
 mod build;
 mod world;
 mod c01;
+mod cworld;
 mod c12;
 
 use rng::Rng;
@@ -37,6 +38,9 @@ fn main() {
     let mut rng = Rng::new(seed ^ (prop.bytes().fold(0u64, |a, b| a.wrapping_mul(131) + u64::from(b))));
     let cases: Vec<Case> = match prop {
         "C01" => c01::cases(&mut rng, count, tier),
+        "C02" | "C03" | "C19" => cworld::cases_simple(&mut rng, count, tier, prop),
+        "C15" => cworld::cases_c15(&mut rng, count, tier),
+        "C16" => cworld::cases_c16(&mut rng, count, tier),
         "C12" => c12::cases(&mut rng, count, tier),
         _ => {
             eprintln!("unknown property {prop}");
